@@ -3,6 +3,7 @@ import os
 import re
 from vcheck import *
 from areas.replfetcher import scenarios_from, sim_states
+from areas import putrecord_stage as putstage
 
 PROPS = ["C05"]
 PACKAGES = ["drv_net"]
@@ -19,7 +20,10 @@ META = {
                 "(1-2 callers, the second joining at any point with the same or a different cfg or key; replies by up to 5 interchangeable peers in every order with repeats, three content "
                 "versions, a foreign key; the four terminating events, late events) and on every small set of versions of the client-side merge under every iteration order of the result "
                 "map; the same operators judge each step of the real code: what each caller's oneshot channel delivered after each handled command / kad event, and what "
-                "get_record_from_network returned for each split (every iteration order of a real HashMap is presented; the order actually presented is logged).",
+                "get_record_from_network returned for each split (every iteration order of a real HashMap is presented; the order actually presented is logged). "
+                "A second engine (specs/putrecord, lib/areas/putrecord_stage.py) follows the read into its main client: every TLC-simulated call of the put model is run on the real "
+                "Network::put_record (commands answered by the harness, or handled by the real SwarmDriver of a node with kad events injected) and clause C05_PutVerifyTarget -- a put verified "
+                "against an expected value succeeds only if a value equal to it was read back with the configured quorum -- is the part of it that is a verdict of C05 (the Put_* clauses are reported as SPEC-DEVIATION only).",
         "note": "trusted: TLC; the harness's decoding of returned records back to ids (byte comparison with its universe of real records, own deserialisation); libp2p's kad behaviour "
                 "is replaced by synthetic OutboundQueryProgressed events (the SwarmDriver is never polled); retries: the code under test really sleeps its back-off (about 2 s, all retry "
                 "cases concurrently), the harness itself never sleeps",
@@ -78,6 +82,10 @@ def run(prop, tier, replay=None):
     thorough = tier == "thorough"
     scn_path = os.path.join(w, "scenarios.ndjson")
     cases_path = os.path.join(w, "cases.ndjson")
+    if replay and replay.get("area") == "putrecord":
+        build(PACKAGES)
+        putstage.putrecord_stage(v, w, thorough, replay)
+        return v.finish()
     if replay:
         write_ndjson(scn_path, [replay["scenario"]] if replay.get("scenario") else [])
         write_ndjson(cases_path, [replay["case"]] if replay.get("case") else [])
@@ -178,4 +186,7 @@ def run(prop, tier, replay=None):
                      "in the driver's register_runs and random runs; the exhaustive model run varies is_register of the second caller only",
                      "exhaustive model run: quick = 1 caller with <= 5 replies or 2 callers with <= 3 replies (<= 2 replies and no repeated / foreign-key / late event once a caller has given up), 5 interchangeable peers, 3 contents, <= 1 foreign-key reply, <= 1 repeated reply, <= 1 late event; "
                      "client-side: every version set of size 2-3 (thorough 2-4) under every iteration order; deeper behaviours by TLC simulation and the driver's random generator"]
+    # second engine: the put path (put_record's verification read-back against an expected value is a C05 read); VERIF_ENABLE_PUTRECORD=0 switches it off
+    if not replay and putstage.enabled():
+        putstage.putrecord_stage(v, w, thorough, None)
     return v.finish()
